@@ -64,8 +64,17 @@ SwitchForms(cases) ==
   (IF \A i \in 1..Len(cases) : Hashable(cases[i][1]) /\ cases[i][1].op # "pred" /\ \A j \in 1..(i - 1) : cases[i][1] # cases[j][1]
    THEN {PSwitchF(cases, "dict", FALSE, NoDef)} ELSE {})
 
+\* defaults are argument values: containers holding T are resolved against the target and
+\* built afresh ({'a': T}, (T, 9), [])
+ArgDefaults == {VC("dict", << Entry(A, VTarg(<<>>)) >>), VC("tuple", <<VTarg(<<>>), VInt(9)>>), VC("list", <<>>)}
+DefaultForms(mode) ==
+  UNION {{PAnd(c, "ctor", TRUE, d), POr(c, "ctor", TRUE, d), PSwitch(<< <<c[1], c[2]>> >>, TRUE, d)}
+           : c \in [1..2 -> Small(mode)], d \in ArgDefaults} \cup
+  {PAnd(<<PM(">", VInt(0))>>, "ctor", TRUE, VC("list", <<VTarg(<<A>>)>>))}         \* [T['a']]: may itself fail
+
 \* depth 1 over the full atom set
 D1(mode) ==
+  DefaultForms(mode) \cup
   UNION {BoolForms(c) : c \in [1..2 -> Atoms(mode)]} \cup
   (IF Wide THEN UNION {BoolForms(c) : c \in [1..3 -> Small(mode)]} ELSE {}) \cup
   UNION {NotForms(c) : c \in Atoms(mode)} \cup
@@ -111,6 +120,9 @@ Checks ==
 \* documented constructor refusals
 WrapKeys == {PLit(A), PLit(VInt(1)), PType("int"), PType("object"), PTuple(<<PLit(A), PLit(VInt(1))>>),
              PTuple(<<PLit(A), PType("int")>>), PTuple(<<>>), PM(">", VInt(0)),
+             PTuple(<<PLit(A), PTuple(<<PLit(VInt(1)), PType("int")>>)>>),       \* nested: the inner member decides
+             PTuple(<<PLit(A), PTuple(<<PLit(VInt(1)), PLit(VInt(1))>>)>>),
+             PFrozenset(<<PTuple(<<PLit(VInt(1)), PType("int")>>)>>),
              POr(<<PLit(A), PLit(VStr("b"))>>, "ctor", FALSE, NoDef), PRegex("ra", "match")}
 Ctors == {PWrap(kd, k) : kd \in {"optional", "required"}, k \in WrapKeys} \cup
          {PWrap(k1, PWrap(k2, PLit(A))) : k1 \in {"optional", "required"}, k2 \in {"optional"}} \cup
@@ -124,8 +136,9 @@ ReAtoms == {PM(">", VInt(0)), PM("==", VStr("a")), PMTruthy}
 Tagged(c) == [i \in 1..3 |-> PAnd(<<c[i], PVal(VInt(i))>>, "ctor", FALSE, NoDef)]
 RePreds == {PPred("isnum", 0), Truthy, PPred("falsy", 0)}
 Reused(m) ==
-  UNION {{POr(Tagged(c), "ctor", FALSE, NoDef), POr(Tagged(c), "ctor", TRUE, D),
-          PSwitch([i \in 1..3 |-> <<c[i], PVal(VInt(i))>>], TRUE, D)} : c \in [1..3 -> ReAtoms]} \cup
+  UNION {{POr(Tagged(c), "ctor", FALSE, NoDef), POr(Tagged(c), "ctor", TRUE, VC("list", <<VTarg(<<>>)>>)),
+          PSwitch([i \in 1..3 |-> <<c[i], PVal(VInt(i))>>], TRUE, VC("dict", << Entry(A, VC("list", <<>>)) >>))}
+           : c \in [1..3 -> ReAtoms]} \cup
   (IF m = "match" THEN {POr(c, "ctor", FALSE, NoDef) : c \in [1..3 -> RePreds]} ELSE {})
 
 VARIABLES mode, spec, target, pred, phase, target2, pred2
@@ -187,10 +200,11 @@ Errs == Case => LawErrs(O) /\ ~O.amb
 \* (Check: when its sub-spec can be evaluated)
 Defaults == Case /\ HasDef(spec) /\ (spec.op = "switch" => \A i \in 1..Len(spec.cases) : ~Holds(mode, target, spec.cases[i][1]))
                  /\ (spec.op = "check" => TGet(target, spec.sub, 1).ok)
+                 /\ (spec.op # "check" => ArgVal(target, spec.def).ok)        \* (a default that can be evaluated)
               => ~Caught(O)
 \* rejections by the combinators are MatchErrors, Check's are CheckErrors; child errors
 \* propagate as themselves
-Rejects == Case /\ ~O.ok /\ Clean(O) =>
+Rejects == Case /\ ~O.ok /\ Clean(O) /\ (HasDef(spec) /\ spec.op # "check" => ArgVal(target, spec.def).ok) =>
   /\ (spec.op \in {"not", "m", "mtruthy"} => O.errs = {"MatchError"})
   /\ (spec.op = "switch" /\ (\A i \in 1..Len(spec.cases) : ~Holds(mode, target, spec.cases[i][1])) => O.errs = {"MatchError"})
   /\ (spec.op = "check" => O.errs = (IF TGet(target, spec.sub, 1).ok THEN {"CheckError"} ELSE {"PathAccessError"}))
